@@ -59,6 +59,16 @@ CHECKS = {
               "names denote one algorithm, bound for all."),
         note=TB_COMMON + "Wrapper agreement is a differential between entry points of the implementation (exploration), not a theorem; kernels' classes are C01-C03's.",
         technique="Coq proof of the transposition algebra + differential check between public entry points"),
+    "C12": dict(
+        category="proof", design_ref="DESIGN.md §4 C12",
+        text=("Proved: the chunk schedule of zlib_compress5 partitions every length with exactly the last chunk finishing; every zlib header "
+              "deflateInit(level) can emit is accepted by the isZlibFormat translated from the source; zstd frames, zlib streams and raw SZ "
+              "streams are classified correctly (under the stated assumption on ZSTD_getFrameContentSize); each decoder entry agrees with the "
+              "sniffer except at its two bypass lengths (refuted there; listed finding), which equal the constant-stream sizes read from the "
+              "source. Checked on the implementation: round trip and sniffing of byte strings around the 64 KiB chunk size for all levels of both "
+              "back ends, and bit-identical reconstructions across 8 mode/back-end/level settings."),
+        note=TB_COMMON + "zlib and zstd are trusted code (round trip, headers, frame-size query are assumptions sampled by the check); c2gallina for isZlibFormat; constants by source-text anchors.",
+        technique="Coq proof (schedule induction, finite sweep over levels, section hypotheses for the back ends) + differential and mode-independence checks"),
 }
 
 NOT_YET = {}
